@@ -120,7 +120,10 @@ def gen(rng):
             twins[0] += 1
         if rng.random() < 0.08:
             # the same path trashed again within the same second (a script that trashes and recreates a file): two entries, two lines
-            G.add_trashed(steps, tdir, 't%d_1' % i, pv, TG.iso(date), rng.choice(['file', 'dir']), tag='%d-twin' % i)
+            # (a third of these twins carry a date that is not in the spec's format - written by another tool: an undated generation
+            # of the same path)
+            tdate = TG.iso(date) if rng.random() < 0.67 else rng.choice(['2003-03-03T10:00:00+01:00', 'yesterday', ''])
+            G.add_trashed(steps, tdir, 't%d_1' % i, pv, tdate, rng.choice(['file', 'dir']), tag='%d-twin' % i)
             twins[0] += 1
     if rng.random() < 0.08 and not any(u == home + '/a/deep' or u.startswith(home + '/a/deep/') for u in used if u.count('/') < 5):
         # after the entries were trashed a directory of the path of some of them was replaced by a symlink that leads elsewhere
@@ -240,11 +243,14 @@ def check(sim, case, st):
         return _dedup(res)
     # ordering
     if sm == 'date':
-        keys = [d for _i, d, _p in listing]
+        # (where entries WITHOUT a readable date go is not specified: the dated ones are in date order)
+        keys = [d for _i, d, _p in listing if d != 'None']
     elif sm == 'path':
         # by path, the date breaking ties (NOT by the concatenation path+date, under which '/a/foo.txt' and '/a/foo/x' come
         # before '/a/foo' because '.' and '/' sort below the first digit of the date)
-        keys = [(p, d) for _i, d, p in listing]
+        # (between two generations of one path of which one has no readable date the order is not specified)
+        undated = set(p for _i, d, p in listing if d == 'None')
+        keys = [(p, d if p not in undated else '') for _i, d, p in listing]
     else:
         keys = None
     if keys is not None:
